@@ -162,6 +162,44 @@ func ruleUniformity(c *Ctx, short string, files []string, rule string) {
 				}
 			}
 		}
+		// categories with a single member (Bool, String, ...) have no same-category sibling: when every
+		// other category of the family is unanimous, the lone member must agree with them too
+		if crossCategory {
+			var others []*Member
+			unanimous := true
+			for _, cat := range cats {
+				if len(byCat[cat]) < 2 {
+					continue
+				}
+				for _, m := range byCat[cat] {
+					if reported[m] {
+						unanimous = false
+					}
+					others = append(others, m)
+				}
+			}
+			for i := 1; i < len(others) && unanimous; i++ {
+				if !termsMatch(canon[others[0]], canon[others[i]], others[0].Tau, others[i].Tau) {
+					unanimous = false
+				}
+			}
+			if unanimous && len(others) >= 4 {
+				for _, cat := range cats {
+					if len(byCat[cat]) != 1 {
+						continue
+					}
+					m := byCat[cat][0]
+					if !termsMatch(canon[others[0]], canon[m], others[0].Tau, m.Tau) &&
+						!termsMatch(normalizeStorage(canon[others[0]]), normalizeStorage(canon[m]), others[0].Tau, m.Tau) {
+						reported[m] = true
+						c.Ob(rule+"-lone", m.Key(), m.Lit, false, "the only "+cat+" arm differs from the unanimous arms of every other category: "+diffTerms(showTerm(canon[others[0]], others[0].Tau), showTerm(canon[m], m.Tau)))
+					} else {
+						c.Ob(rule+"-lone", m.Key(), m.Lit, true, "agrees with the arms of the other categories")
+						reported[m] = true
+					}
+				}
+			}
+		}
 		for _, m := range g.members {
 			if !reported[m] {
 				c.Ob(rule, m.Key(), m.Lit, true, short70(showTerm(canon[m], m.Tau)))
@@ -170,6 +208,9 @@ func ruleUniformity(c *Ctx, short string, files []string, rule string) {
 	}
 	c.Extra(rule+"_families", nfam)
 }
+
+// crossCategory enables the lone-member comparison (see ruleUniformity).
+var crossCategory = true
 
 func pathPrefix(m *Member, n int) string {
 	var sb strings.Builder
